@@ -62,7 +62,12 @@ def gen_case(rnd):
     }
     if rnd.random() < 0.03:
         m["cat"] = None
-    return (1 if rnd.random() < 0.6 else 0), m
+    compact = 1 if rnd.random() < 0.6 else 0
+    # how the application obtains the formatter: direct construction, the fluent formatToJson(compact) of a pipeline (many
+    # pipelines of both modes live in one driver process, in random order), or the shared default (indented) instance
+    r = rnd.random()
+    m["how"] = 0 if r < 0.55 else (1 if r < 0.92 or compact else 2)
+    return compact, m
 
 
 def deep_equal(exp, got):
@@ -170,7 +175,7 @@ def run(ctx):
     else:
         rnd = random.Random(ctx.seed * 32452843 + 13)
         cases = [gen_case(rnd) for _ in range(ctx.pick(20000, 1500000))]
-    lines = ["J %d %d %s" % (i, c, enc_msg(m)) for i, (c, m) in enumerate(cases)]
+    lines = ["J2 %d %d %d %s" % (i, c, m.get("how", 0), enc_msg(m)) for i, (c, m) in enumerate(cases)]
     results, crashes = fmtdrv.run_cases(ctx, "san", lines, chunk=500)
 
     def rep_of(c, m):
@@ -193,12 +198,12 @@ def run(ctx):
         n += 1
         for key, what in check_one(c, m, results[str(i)]):
             ctx.violation(key, "compact=%d text=%r attrs=%r :: %s" % (c, (m["text"] or "")[:60], m["attrs"][:3], what), rep_of(c, m))
-        sig = (c, text_classes(m["text"] or ""), tuple(sorted(shape(v) for _, v in m["attrs"])),
+        sig = (c, m.get("how", 0), text_classes(m["text"] or ""), tuple(sorted(shape(v) for _, v in m["attrs"])),
                m["file"] is None, m["func"] is None, m["type"])
-        if sig[1] or sig[2]:
+        if sig[2] or sig[3]:
             distinct.add(sig)
-        if len(samples) < 3 and sig[1] and sig[2] and i % 501 == 0:
-            samples.append({"compact": c, "message": m["text"][:80], "attributes": [[k, v] for k, v in m["attrs"]][:4],
+        if len(samples) < 3 and sig[2] and sig[3] and i % 501 == 0:
+            samples.append({"compact": c, "obtained": ["constructor", "formatToJson()", "instance()"][m.get("how", 0)], "message": m["text"][:80], "attributes": [[k, v] for k, v in m["attrs"]][:4],
                             "output": unhexs(results[str(i)][0])[:300]})
     cov = {
         "evaluations": n,
@@ -206,7 +211,8 @@ def run(ctx):
         "rule": "messages over well-formed Unicode weighted towards quotes, backslashes, C0 controls incl. U+0000, U+007F, U+0085, "
                 "U+2028/9, U+FFFE/F, astral planes, 64 KiB texts; attribute names arbitrary (not shadowing built-ins); values "
                 "string/int(|n|<=2^53)/bool/double k/8/invalid/nested lists+maps depth<=4; null and empty source-location pointers; "
-                "compact and indented; non-trivial = text has a special class or there is at least one attribute; distinct by "
+                "compact and indented; formatter constructed directly, obtained through SimplePipeline::formatToJson(compact) with pipelines "
+                "of both modes created in random order within one process, or the shared default instance; non-trivial = text has a special class or there is at least one attribute; distinct by "
                 "(mode, text classes, attribute value shapes, null pointers, type)",
         "samples": samples or [{"message": cases[0][1]["text"]}],
     }
